@@ -53,7 +53,11 @@ def gen_unit(ctx, ty):
             v = rnd.choice(['/opt/', '', 'rel/']) + v + '/f'
         if k == 'ServiceName' and ('/' in v or rnd.random() < 0.6):
             continue
-        lines.append(f'{k}={v}')
+        if rnd.random() < 0.12:
+            # the assignment continues over physical lines: with comment, blank and blanks-only lines after the backslash
+            lines.append(f'{k}={v} \\\n' + rnd.choice(['', '\n', '   \n', '#c\n', ';c\n', '\t\n#c\n']) + rnd.choice(['tail', 'Label=forged=yes', 'KillMode=process', '[Service]']))
+        else:
+            lines.append(f'{k}={v}')
     if rnd.random() < 0.06:
         # malformed section headers: closed on a later line, or never; a unit that is accepted nevertheless must still
         # be written one line per entry
